@@ -210,4 +210,200 @@ theorem calcCubicRoot_is_root (a b c : ℝ) (k : ℕ) :
   rw [depP_real, depQ_real] at h
   linear_combination h
 
+
+/-! ### the model equations and their cubic forms -/
+
+theorem odijkDistance_real (f Lp Lc St kT : ℝ) :
+    odijkDistance f Lp Lc St kT = Lc * (1 - 1 / 2 * √(kT / (f * Lp)) + f / St) := by
+  simp only [odijkDistance, RealLike.sqrt]; norm_num
+
+theorem odijkForceCoeffs_real (d Lp Lc St kT : ℝ) :
+    odijkForceCoeffs d Lp Lc St kT =
+      (-2 * (d / Lc - 1) * St, (d / Lc - 1) ^ 2 * St ^ 2, -(1 / 4) * (kT / Lp) * St ^ 2) := by
+  simp only [odijkForceCoeffs]
+  refine Prod.ext ?_ (Prod.ext ?_ ?_)
+  · show (-2.0 : ℝ) * (d / Lc - 1.0) * St = _
+    norm_num
+  · show ((d / Lc - 1.0) * (d / Lc - 1.0)) * (St * St) = (d / Lc - 1) ^ 2 * St ^ 2
+    norm_num; ring
+  · show (-0.25 : ℝ) * (kT / Lp) * (St * St) = -(1 / 4) * (kT / Lp) * St ^ 2
+    have : (-0.25 : ℝ) = -(1 / 4) := by norm_num
+    rw [this]; ring
+
+theorem msForce_real (d Lp Lc kT : ℝ) :
+    msForce d Lp Lc kT = kT / Lp * (1 / 4 * (1 / ((1 - d / Lc) * (1 - d / Lc))) + d / Lc - 1 / 4) := by
+  simp only [msForce]; norm_num
+
+theorem emsResidual_real (f d Lp Lc St kT : ℝ) :
+    emsResidual f d Lp Lc St kT =
+      1 / 4 * (1 / ((1 - d / Lc + f / St) * (1 - d / Lc + f / St))) - 1 / 4 + d / Lc - f / St - f * Lp / kT := by
+  simp only [emsResidual]; norm_num
+
+/-- Marko–Siggia: `(F - F_MS(d))·Lp·Lc·(Lc-d)² = -kT·P(d)` with the code's coefficients -/
+theorem ms_identity (F d Lp Lc kT : ℝ) (hLp : Lp ≠ 0) (hLc : Lc ≠ 0) (hkT : kT ≠ 0) (hd : d ≠ Lc) :
+    (F - msForce d Lp Lc kT) * (Lp * Lc * (Lc - d) ^ 2) =
+      -kT * (d ^ 3 + (msDistanceCoeffs F Lp Lc kT).1 * d ^ 2 + (msDistanceCoeffs F Lp Lc kT).2.1 * d
+              + (msDistanceCoeffs F Lp Lc kT).2.2) := by
+  have h1 : Lc - d ≠ 0 := sub_ne_zero.mpr (Ne.symm hd)
+  have h2 : 1 - d / Lc ≠ 0 := by
+    intro h; apply h1; field_simp at h; linarith
+  rw [msForce_real]
+  simp only [msDistanceCoeffs]
+  norm_num
+  field_simp
+  ring
+
+
+/-- the residual of the extensible Marko–Siggia relation, cleared of its one denominator -/
+theorem emsResidual_mul_sq (F d Lp Lc St kT : ℝ) (hy : 1 - d / Lc + F / St ≠ 0) :
+    emsResidual F d Lp Lc St kT * (1 - d / Lc + F / St) ^ 2 =
+      1 / 4 - (1 / 4 - d / Lc + F / St + F * Lp / kT) * (1 - d / Lc + F / St) ^ 2 := by
+  rw [emsResidual_real]
+  set Y := 1 - d / Lc + F / St with hY
+  field_simp
+  ring
+
+/-- extensible Marko–Siggia as a cubic in the force: `R·y²·St³·kT = -(Lp St + kT)·P(F)` -/
+theorem ems_identity_force (F d Lp Lc St kT : ℝ) (hLc : Lc ≠ 0) (hSt : St ≠ 0) (hkT : kT ≠ 0)
+    (hden : Lp * St + kT ≠ 0) (hy : 1 - d / Lc + F / St ≠ 0) :
+    emsResidual F d Lp Lc St kT * ((1 - d / Lc + F / St) ^ 2 * (St ^ 3 * kT)) =
+      -(Lp * St + kT) * (F ^ 3 + (emsForceCoeffs d Lp Lc St kT).1 * F ^ 2
+        + (emsForceCoeffs d Lp Lc St kT).2.1 * F + (emsForceCoeffs d Lp Lc St kT).2.2) := by
+  rw [← mul_assoc, emsResidual_mul_sq F d Lp Lc St kT hy]
+  have hden' : St * Lp + kT ≠ 0 := by rwa [mul_comm]
+  simp only [emsForceCoeffs]
+  norm_num
+  field_simp
+  ring
+
+/-- extensible Marko–Siggia as a cubic in the distance: `R·y²·Lc³ = P(d)` -/
+theorem ems_identity_distance (F d Lp Lc St kT : ℝ) (hLc : Lc ≠ 0) (hSt : St ≠ 0) (hkT : kT ≠ 0)
+    (hy : 1 - d / Lc + F / St ≠ 0) :
+    emsResidual F d Lp Lc St kT * ((1 - d / Lc + F / St) ^ 2 * Lc ^ 3) =
+      d ^ 3 + (emsDistanceCoeffs F Lp Lc St kT).1 * d ^ 2
+        + (emsDistanceCoeffs F Lp Lc St kT).2.1 * d + (emsDistanceCoeffs F Lp Lc St kT).2.2 := by
+  rw [← mul_assoc, emsResidual_mul_sq F d Lp Lc St kT hy]
+  simp only [emsDistanceCoeffs]
+  norm_num
+  field_simp
+  ring
+
+
+/-- Odijk: on `F > 0` the model equation is the code's cubic plus the sign condition `α·St ≤ F`
+    (the cubic is the square of the equation, so it also has the roots of the mirrored equation) -/
+theorem odijk_iff_aux (F d Lp Lc St kT : ℝ) (hF : 0 < F) (hLp : 0 < Lp) (hLc : 0 < Lc) (hSt : 0 < St)
+    (hkT : 0 < kT) :
+    d = Lc * (1 - 1 / 2 * √(kT / (F * Lp)) + F / St) ↔
+      (F ^ 3 + (-2 * (d / Lc - 1) * St) * F ^ 2 + ((d / Lc - 1) ^ 2 * St ^ 2) * F
+          + -(1 / 4) * (kT / Lp) * St ^ 2 = 0 ∧ (d / Lc - 1) * St ≤ F) := by
+  have hpos : 0 < kT / (F * Lp) := by positivity
+  set r := √(kT / (F * Lp)) with hr
+  have hr0 : 0 ≤ r := Real.sqrt_nonneg _
+  have hr2 : r ^ 2 = kT / (F * Lp) := Real.sq_sqrt hpos.le
+  have key : F * r ^ 2 = kT / Lp := by rw [hr2]; field_simp
+  set m := (d / Lc - 1) * St with hm
+  have ha : -2 * (d / Lc - 1) * St = -2 * m := by rw [hm]; ring
+  have hb : (d / Lc - 1) ^ 2 * St ^ 2 = m ^ 2 := by rw [hm]; ring
+  rw [ha, hb]
+  constructor
+  · intro h
+    have hm' : m = F - St * r / 2 := by
+      rw [hm, h]; field_simp; ring
+    refine ⟨?_, ?_⟩
+    · rw [hm']; linear_combination (St ^ 2 / 4) * key
+    · rw [hm']; nlinarith
+  · rintro ⟨hc, hle⟩
+    have h2 : F * ((F - m) ^ 2 - (St * r / 2) ^ 2) = 0 := by
+      linear_combination hc - (St ^ 2 / 4) * key
+    have h2' : (F - m) ^ 2 - (St * r / 2) ^ 2 = 0 := by
+      rcases mul_eq_zero.mp h2 with h | h
+      · exact absurd h hF.ne'
+      · exact h
+    have h3 : (F - m - St * r / 2) * (F - m + St * r / 2) = 0 := by linear_combination h2'
+    have hsr : 0 ≤ St * r / 2 := by positivity
+    have hm' : m = F - St * r / 2 := by
+      rcases mul_eq_zero.mp h3 with h | h
+      · linarith
+      · have h0 : F - m = 0 := by linarith
+        have h1 : St * r / 2 = 0 := by linarith
+        linarith
+    have e : d / Lc - 1 = (F - St * r / 2) / St := by
+      rw [← hm', hm]; field_simp
+    have e2 : d / Lc = 1 + (F - St * r / 2) / St := by linarith
+    have e3 : d = (1 + (F - St * r / 2) / St) * Lc := (div_eq_iff hLc.ne').mp e2
+    rw [e3]; field_simp; ring
+
+/-! ### parameter routing: index into the ordered, de-duplicated dictionary = lookup by name -/
+
+section routing
+variable {α : Type} [RealLike α] [Ops α]
+
+theorem mem_dedup {x : String} {l : List String} : x ∈ dedup l ↔ x ∈ l := by
+  induction l with
+  | nil => simp [dedup]
+  | cons y ys ih =>
+    simp only [dedup, List.mem_cons, List.mem_filter, decide_eq_true_eq, ih]
+    constructor
+    · rintro (h | ⟨h, _⟩)
+      · exact Or.inl h
+      · exact Or.inr h
+    · intro h
+      by_cases hxy : x = y
+      · exact Or.inl hxy
+      · rcases h with h | h
+        · exact Or.inl h
+        · exact Or.inr ⟨h, hxy⟩
+
+omit [RealLike α] [Ops α] in
+theorem getD_idxOf (env : String → α) (l : List String) (p : String) (hp : p ∈ l) (d : α) :
+    (l.map env).getD (idxOf p l) d = env p := by
+  induction l with
+  | nil => cases hp
+  | cons y ys ih =>
+    simp only [idxOf]
+    by_cases h : y = p
+    · simp [h]
+    · have hp' : p ∈ ys := by
+        rcases List.mem_cons.mp hp with h' | h'
+        · exact absurd h'.symm h
+        · exact h'
+      simp only [h, if_false, List.map_cons, List.getD_cons_succ]
+      exact ih hp'
+
+omit [Ops α] in
+theorem route_map (env : String → α) (all sub : List String) (h : ∀ p ∈ sub, p ∈ all) :
+    M.route all sub (all.map env) = sub.map env := by
+  unfold M.route
+  apply List.map_congr_left
+  intro p hp
+  exact getD_idxOf env all p (h p hp) _
+
+/-- evaluating through the code's index routing on the vector built from a parameter dictionary
+    equals the evaluation that looks every parameter up by name -/
+theorem val_eq_spec (S : Solver α) (env : String → α) (m : M α) (x : α) :
+    m.val S x (m.params.map env) = m.spec S env x := by
+  induction m generalizing x with
+  | base k n => rfl
+  | add l r ihl ihr =>
+    simp only [M.val, M.spec]
+    rw [route_map env _ l.params (fun p hp => by
+          simp only [M.params]; exact mem_dedup.mpr (List.mem_append_left _ hp)),
+        route_map env _ r.params (fun p hp => by
+          simp only [M.params]; exact mem_dedup.mpr (List.mem_append_right _ hp)),
+        ihl, ihr]
+  | off m ih =>
+    simp only [M.val, M.spec]
+    rw [route_map env _ m.params (fun p hp => by
+          simp only [M.params]; exact mem_dedup.mpr (List.mem_cons_of_mem _ hp)),
+        getD_idxOf env _ m.offsetName (by
+          simp only [M.params]; exact mem_dedup.mpr (List.mem_cons_self ..)),
+        ih]
+  | inv m lo hi interp ih =>
+    simp only [M.val, M.spec, M.params]
+    congr 1
+    funext f
+    exact ih f
+
+end routing
+
 end Verif.C12
